@@ -534,6 +534,21 @@ def _ctor_waits_case(draw):
   return {'kind': 'threads', 'programs': programs, 'schedule': schedule}
 
 
+@st.composite
+def _first_use_race_case(draw):
+  """The very first singleton uses of the process come from two or three threads at once, with a
+  fine-grained schedule over the first steps (whatever is set up lazily on first use is set up
+  under contention)."""
+  n = draw(st.sampled_from([2, 2, 3]))
+  key = draw(st.integers(0, 1))
+  programs = [[['single', key, draw(st.integers(0, 1))]] + draw(st.lists(
+      st.sampled_from([['single', 0, 0], ['single', 1, 1], ['read']]), max_size=1)) for _ in range(n)]
+  schedule = {'t': draw(st.lists(st.integers(0, 2), min_size=20, max_size=120)),
+              's': draw(st.integers(1, 2**31)), 'n': draw(st.sampled_from([100, 300])),
+              'burst': False}
+  return {'kind': 'threads', 'programs': programs, 'schedule': schedule}
+
+
 def strategy():
   return st.one_of(_threads_case(), _threads_case(), _record_growth_case(), _sequential_case(),
-                   _flaky_race_case(), _ctor_waits_case())
+                   _flaky_race_case(), _ctor_waits_case(), _first_use_race_case())
